@@ -15,7 +15,7 @@ def dclass(d: str) -> str:
     return ("n" if ops.nullable(d) else "") + k
 
 
-COMPOSITE = ("expm1", "log1p", "logaddexp", "atan2")
+COMPOSITE = ("expm1", "log1p", "logaddexp", "atan2", "sin", "cos")
 
 
 def composite_region(case, a_ok, b_ok):
@@ -42,11 +42,16 @@ def composite_region(case, a_ok, b_ok):
                 continue
             x = ins[0][idx]
             y = ins[1][idx] if len(ins) > 1 else None
-            if f in ("expm1", "log1p"):
+            if f in ("sin", "cos"):
+                # onnxruntime's kernels are accurate to a few ulp of 1.0, not of a small result
+                regs.add("small-absolute-error" if (np.isfinite(u) and np.isfinite(v) and abs(u - v) <= 8 * eps) else "other")
+            elif f in ("expm1", "log1p"):
                 regs.add("near-zero" if abs(x) < 0.5 else "other")
             elif f == "logaddexp":
                 if np.isinf(x) and np.isinf(y) and x == y:
                     regs.add("equal-infinities")
+                elif np.isfinite(u) and np.isfinite(v) and abs(u) < 0.5 and abs(u - v) <= 8 * eps:
+                    regs.add("near-zero")           # log(1 + small): absolute error of a few ulp of 1.0
                 elif np.isfinite(x) and np.isfinite(y) and max(abs(x), abs(y)) > (80.0 if f32 else 700.0):
                     regs.add("overflow")
                 elif (np.isinf(x) or np.isinf(y)):
